@@ -192,6 +192,20 @@ def stale_files(target: str, info, rng, sentinel=True):
     return list(out.items())
 
 
+def outdated_copy(target: str, info, sources):
+    """the target holds exactly the listed files, each as long as its source and with other bytes (an earlier build of
+    the same package, unpacked with the same timestamps)"""
+    src = info["source"]
+    base = src[3]
+    by_path = dict(sources)
+    out = []
+    for p in listed(info):
+        c = by_path.get(posixpath.join(base, p))
+        if c is not None:
+            out.append((posixpath.join(target, p), "".join(chr((ord(ch) + 1) % 256) if ord(ch) < 255 else "\x00" for ch in c)))
+    return out
+
+
 def neighbour_files(destdir: str, info, iv: bool, rng):
     """files next to the target that must survive: sibling dependency, a directory whose *name* extends the target's"""
     dn = dir_name(info, iv)
@@ -409,6 +423,8 @@ def gen_copy(ck, tier):
             target = posixpath.join(dest, dir_name(info, iv))
             fs = source_files(info, rng) + stale_files(target, info, rng) + neighbour_files(dest.rstrip("/"), info, iv, rng)
             lines.append((copy_line("copy_to", info, dest, iv, V, fs), True, "copy_to:ok"))
+            srcs = source_files(info, rng, extras=False, nested=False)
+            lines.append((copy_line("copy_to", info, dest, iv, V, srcs + outdated_copy(target, info, srcs)), True, "copy_to:outdated-copy"))
             # fault enumeration: every choice of one missing listed file; the sentinel and stale files must survive
             # (copy_to: files of the whole sandbox before/after; copy_atomic: directories, names, contents)
             for miss in listed(info):
